@@ -64,7 +64,7 @@ class OM:
 class World:
     """Configuration + object models for one executor instance."""
 
-    def __init__(self, rng, ns=1, nid=None, small=False):
+    def __init__(self, rng, ns=1, nid=None, small=False, enum64=False):
         self.rng, self.ns = rng, ns
         self.nid = nid if nid is not None else rng.choice([1, 1, 2, 64, 127])
         cfg = Config(nodeid=self.nid, freq=1000, tmrnum=8)
@@ -89,6 +89,8 @@ class World:
             d = gen.rand_nonzero_bytes(rng, ln)
             cfg.add(string(0x2110, i, d)); m[(0x2110, i)] = OM(0x2110, i, "str", R, data=d)
         sizes = [1, 2, 3, 4, 5, 7, 8, 20, 100] + ([] if small else [rng.choice([882, 888, 889]), rng.choice([890, 896, 1000]), rng.choice([1777, 1778, 1779]), rng.choice([2000, 4000])])
+        if enum64:
+            sizes = list(range(1, 65))
         for i, sz in enumerate(sizes):
             d = gen.rand_bytes(rng, sz)
             cfg.add(domain(0x2120, i, sz, d)); m[(0x2120, i)] = OM(0x2120, i, "dom", RW, data=d)
@@ -382,13 +384,30 @@ def c03_work(item, ctx):
     kind, idx, n = item
     exe = ctx["exes"]["asan"]
     rng = random.Random(F.seed_for(ctx["seed"], "C03", kind, idx))
-    world = World(rng, ns=1, small=(kind == "sys"))
+    world = World(rng, ns=1, small=(kind in ("sys", "enum")), enum64=(kind == "enum"))
     sim = S.Sim(exe, world.cfg)
     run = Runner(res, sim, world, "C03")
     try:
         objs = [o for o in world.om.values() if o.readable and o.kind in ("int", "str", "dom")]
+        cases = None
+        if kind == "enum":
+            # complete enumeration: every domain size 1..64 x requested block size 1..9 x every single-acknowledge position k (0..segments sent)
+            cases = []
+            for o in sorted((x for x in objs if x.idx == 0x2120), key=lambda x: x.sub):
+                if o.size() % 4 != idx % 4:
+                    continue
+                nseg = (o.size() + 6) // 7
+                for bs in range(1, 10):
+                    for k in range(0, min(bs, nseg) + 1):
+                        cases.append((o, bs, k))
+            n = len(cases)
+            res.extra["c03_enumerated_cases"] = n
         for t in range(n):
-            if kind == "sys":
+            if kind == "enum":
+                o, bs, k = cases[t]
+                mode = "blk"
+                opts = {"blksize": bs, "ack": "fixed", "k": k, "vary": False}
+            elif kind == "sys":
                 # systematic: object size <= 64, blksize <= 9, every single-ack position
                 small = sorted([o for o in objs if o.size() <= 100], key=lambda o: (o.idx, o.sub))
                 o = small[(idx + t) % len(small)]
@@ -402,7 +421,7 @@ def c03_work(item, ctx):
                 mode = rng.choice(["normal", "blk", "blk", "blk"])
                 opts = {"blksize": rng.choice([1, 2, 3, 4, 7, 8, 20, 63, 64, 126, 127, rng.randint(1, 127)]),
                         "ack": rng.choice(["all", "rand", "rand"]), "vary": rng.random() < 0.4, "crc": rng.random() < 0.2}
-            reps = rng.choice([1, 1, 2, 3])
+            reps = 1 if kind == "enum" else rng.choice([1, 1, 2, 3])
             for rep in range(reps):
                 out = run.transfer(0, make_upload(rng, o, mode, opts))
                 res.evals += 1
@@ -502,8 +521,8 @@ def for_property(prop):
     elif prop == "C03":
         m.VARIANTS = ["asan"]
         m.RULE = ("uploads of every readable object (integers, strings 1..1000, domains 1..4000) by the reference client: normal "
-                  "(expedited/segmented) and block with requested block size 1..127, per-block acknowledge of any prefix (systematic "
-                  "for objects <= 100 bytes x blksize 1..9 x single ack position, random otherwise), block size changed between blocks, "
+                  "(expedited/segmented) and block with requested block size 1..127, per-block acknowledge of any prefix (complete enumeration "
+                  "of domain sizes 1..64 x blksize 1..9 x every single-acknowledge position; systematic rotation for objects <= 100 bytes; random otherwise), block size changed between blocks, "
                   "each object read up to 3 times in a row; non-trivial = >= 1 partial acknowledge or >= 2 segments/blocks")
         m.ASSUMPTIONS = ["zero-length strings are not uploaded (CiA 301 cannot express them in an expedited answer)",
                          "pst = 0 (no protocol switch requested)", "a client never acknowledges 0 segments twice in a row (progress)"]
@@ -513,6 +532,7 @@ def for_property(prop):
             q = tier == "quick"
             items = [("rand", i, 20 if q else 60) for i in range(64 if q else 1200)]
             items += [("sys", i, 60 if q else 300) for i in range(32 if q else 600)]
+            items += [("enum", i, 0) for i in range(4)]
             return items
         m.plan = plan
 
